@@ -12,7 +12,7 @@ pub struct u5(pub u8);
 pub uninterp spec fn bech32_hrp(s: Seq<char>) -> Option<Seq<char>>;
 /// lib.rs `decode`: the returned hrp is lower-cased
 pub broadcast axiom fn axiom_hrp_lower(s: Seq<char>)
-    requires #[trigger] bech32_hrp(s) is Some,
+    requires (#[trigger] bech32_hrp(s)) is Some,
     ensures forall|i: int| 0 <= i < bech32_hrp(s)->Some_0.len() ==> !(65 <= (#[trigger] bech32_hrp(s)->Some_0[i]) as u32 <= 90);
 #[verifier::external_body]
 pub fn decode(s: &str) -> (r: Result<(String, Vec<u5>, Variant), Error>)
@@ -41,7 +41,7 @@ pub fn encode(hrp: &str, data: Vec<u5>, v: Variant) -> (r: Result<String, Error>
 verus! {
 /// lib.rs `decode`: the string is `<hrp>1<data>` with at least 6 checksum characters, all ASCII.
 pub broadcast axiom fn axiom_bech32_len(s: Seq<char>)
-    requires #[trigger] bech32_hrp(s) is Some,
+    requires (#[trigger] bech32_hrp(s)) is Some,
     ensures
         crate::std_ext::str_byte_len(s) >= crate::std_ext::str_byte_len(bech32_hrp(s)->Some_0) + 7,
         bech32_hrp(s)->Some_0.len() >= 1;
